@@ -140,6 +140,14 @@ def main():
                 meta = json.loads((src / "meta.json").read_text())
             except Exception:  # noqa: BLE001
                 meta = {}
+        prev = (meta.get("verification") or {}) if isinstance(meta, dict) else {}
+        if not do_tests:
+            # keep the test-suite verdict of the earlier full validation (the patch itself is unchanged)
+            for k in ("tests_summary", "stable_tests_missing", "tests_ok"):
+                if k in prev and k not in res:
+                    res[k] = prev[k]
+            if "tests_ok" in res:
+                res["tests_note"] = "test-suite verdict carried over from the full validation of this patch"
         meta = {k: v for k, v in meta.items() if k not in ("verification",)}
         meta["property"] = prop
         meta["verification"] = res
